@@ -37,7 +37,7 @@ TOKENS_BASE = ["and", "or", "not", "in", "is", "empty", "contains", "matches", "
                "0", "1", "12", "1.5", "-1", "01", "1.",
                '"a"', "`a`", '""', '"/a"', '"a\\n"', '"\\q"', '"a', "`a", "`a\r`", '"a\nb"', '"/a~1b"', '"/m/a~01b"',
                "(", ")", "{", "}", "[", "]", ",", ".", "==", "!=", "=", "!", "\t", "\n"]
-TOKENS_SPECIAL = [["<L>"], ["<N>"], ["<S>"], ["<B>"], ["<0>"], ['"', "<L>", '"'], ['"', "<B>", '"'], ["a", "<L>"], ['"', "/", "<L>", "<N>", '"']]
+TOKENS_SPECIAL = [["[", '"', " ", "x", " ", '"', "]"], ["<L>"], ["<N>"], ["<S>"], ["<B>"], ["<0>"], ['"', "<L>", '"'], ['"', "<B>", '"'], ["a", "<L>"], ['"', "/", "<L>", "<N>", '"']]
 
 
 def tokens(tier):
@@ -59,7 +59,7 @@ def n(e):
 
 OPS = ["==", "!=", "in", "notin", "empty", "notempty", "matches", "notmatches"]
 PATHS = [["a"], ["foo", "bar"], ["a", "0"], ["a", "b c"], ["x1", "y", "2"], ["a/b", "c"], ["a", "007"], ["m", "a~b"], ["m", "a/b"], ["m", "a~1b"], ["m", "~0~1"], ["not"], ["a", "in"], ["a", ""],
-         ["a", "."], ["a", ".."], ["notes"], ["android", "or1"], ["a", "%s"], ["inner", "all"], ["r", "q\"x"], ["k", "é"]]
+         ["a", "."], ["a", ".."], ["notes"], ["android", "or1"], ["a", " lead"], ["a", "trail "], ["a", "UP"], ["a", "%s"], ["inner", "all"], ["r", "q\"x"], ["k", "é"]]
 VALS = ["1", "x", "", "hello world", "1.5", "-3", "true", "/usr/bin", "a\"b", "a`b", "a\\b", "é", "foo.bar", "v1.2", "a\nb", "0x10", "not", "in", " ", "a\tb", "a/b", "12abc", "100%", "%d%s", "a\\"]
 
 
